@@ -47,7 +47,7 @@ def stateOf? (j : Json) : Option HState := do
 
 def evOf? (j : Json) : Option Ev := do
   match ← jArr? j with
-  | [t, e, lh] => do pure { t := ← jInt? t, ess := ← jNat? e, lastHandled := ← jOpt? jNat? lh }
+  | [r, t, e, lh] => do pure { recv := ← jInt? r, t := ← jInt? t, ess := ← jNat? e, lastHandled := ← jOpt? jNat? lh }
   | _ => none
 
 /-- observed reads of `idle_reset_time`: [[t, v], …]; two different values at one instant are refused -/
